@@ -17,8 +17,8 @@ C08Init == /\ cfg = [m \in Minerals |-> IF m = "c" THEN cC ELSE cA]
 Seqs == {<<x, y>> : x \in Minerals, y \in Minerals} \cup {<<x, y, z>> : x \in Minerals, y \in Minerals, z \in Minerals}
 OrderedSubsets == {s \in Seqs : \A i, j \in 1..Len(s) : i # j => s[i] # s[j]}
 C08Next == \/ \E m \in Minerals, fl \in Flows, par \in Pars :
-                 UpdateOk(m, fl, par, NoCb, NextO(Last(hist[m]), cfg[m], cfg[m].regime, fl, par),
-                                            NextF(Last(hist[m]), cfg[m], cfg[m].regime, fl, par))
+                 UpdateOk(m, fl, par, NoCb, NextOP(Last(hist[m]), cfg[m], cfg[m].regime, fl, par, Fm[m]),
+                                            NextFP(Last(hist[m]), cfg[m], cfg[m].regime, fl, par, Fm[m]))
            \/ \E ms \in OrderedSubsets, fl \in Flows, par \in Pars : UpdateAllOk(ms, fl, par, ModelNews(fl, par))
 C08Spec == C08Init /\ [][C08Next]_vars
 
@@ -26,13 +26,13 @@ C08Spec == C08Init /\ [][C08Next]_vars
 Touches(e, m) == IF e.a = "UpdateOk" THEN e.m = m
                  ELSE IF e.a = "UpdateAllOk" THEN InSeq(m, e.ms) ELSE FALSE
 Inputs(m) == SelectSeq(log, LAMBDA e : Touches(e, m))
-RECURSIVE Solo(_, _, _)
+RECURSIVE Solo(_, _, _, _)
 \* the solo machine: fold the mineral's own inputs over its own initial snapshot
-Solo(m, h, ins) == IF ins = <<>> THEN h
+Solo(m, h, ins, path) == IF ins = <<>> THEN h
                    ELSE LET e == Head(ins) IN
-                        Solo(m, Append(h, [o |-> NextO(Last(h), cfg[m], cfg[m].regime, e.fl, e.par),
-                                           f |-> NextF(Last(h), cfg[m], cfg[m].regime, e.fl, e.par)]), Tail(ins))
-NonInterference == \A m \in Minerals : hist[m] = Solo(m, <<hist[m][1]>>, Inputs(m))
+                        Solo(m, Append(h, [o |-> NextOP(Last(h), cfg[m], cfg[m].regime, e.fl, e.par, path),
+                                           f |-> NextFP(Last(h), cfg[m], cfg[m].regime, e.fl, e.par, path)]), Tail(ins), Append(path, e.fl))
+NonInterference == \A m \in Minerals : hist[m] = Solo(m, <<hist[m][1]>>, Inputs(m), <<>>)
 OwnKey(m, e) == StepKey(cfg[m], cfg[m].regime, e.fl, e.par)
 SameDriving(m1, m2) == /\ Len(Inputs(m1)) = Len(Inputs(m2))
                        /\ \A k \in 1..Len(Inputs(m1)) : OwnKey(m1, Inputs(m1)[k]) = OwnKey(m2, Inputs(m2)[k])
